@@ -854,7 +854,27 @@ func rootLeaves(v ssa.Value, seen map[ssa.Value]bool) []ssa.Value {
 	case *ssa.Slice:
 		if al, ok := x.X.(*ssa.Alloc); ok {
 			var out []ssa.Value
-			for _, rf := range *al.Referrers() {
+			// a literal (stores through the array) or make([]T, k) filled by index (stores through the slice)
+			for _, base := range []ssa.Value{al, x} {
+				if base.Referrers() == nil {
+					continue
+				}
+				for _, rf := range *base.Referrers() {
+					if ia, ok := rf.(*ssa.IndexAddr); ok {
+						for _, r2 := range *ia.Referrers() {
+							if st, ok := r2.(*ssa.Store); ok {
+								out = append(out, rootLeaves(st.Val, seen)...)
+							}
+						}
+					}
+				}
+			}
+			return out
+		}
+	case *ssa.MakeSlice:
+		var out []ssa.Value
+		if x.Referrers() != nil {
+			for _, rf := range *x.Referrers() {
 				if ia, ok := rf.(*ssa.IndexAddr); ok {
 					for _, r2 := range *ia.Referrers() {
 						if st, ok := r2.(*ssa.Store); ok {
@@ -863,6 +883,8 @@ func rootLeaves(v ssa.Value, seen map[ssa.Value]bool) []ssa.Value {
 					}
 				}
 			}
+		}
+		if len(out) > 0 {
 			return out
 		}
 	}
@@ -1029,11 +1051,17 @@ func checkFingerprint(r *Report, p *Prog, fn *ssa.Function, rule string) {
 				for _, v := range ai.Vals {
 					if ex, okx := v.(*ssa.Extract); okx {
 						if call, okc := ex.Tuple.(*ssa.Call); okc && len(call.Call.Args) > 0 {
-							certAP := fc.AP(call.Call.Args[0])
-							leaves := rootLeaves(Resolve(ret.Results[0]), map[ssa.Value]bool{})
-							for _, lf := range leaves {
-								if fc.AP(lf) == certAP {
-									ok = true
+							// (the certificate operand of the fingerprint function, wherever it stands among its arguments)
+							for _, arg := range call.Call.Args {
+								if !typeIs(arg.Type(), "crypto/x509", "Certificate") {
+									continue
+								}
+								certAP := fc.AP(arg)
+								leaves := rootLeaves(Resolve(ret.Results[0]), map[ssa.Value]bool{})
+								for _, lf := range leaves {
+									if fc.AP(lf) == certAP {
+										ok = true
+									}
 								}
 							}
 						}
